@@ -1,3 +1,4 @@
+import re
 """MIR helpers shared between property modules."""
 from ..mirlib import short_ty, callee_key
 
@@ -99,28 +100,36 @@ def check_commit_order(mir, r):
 def clause_eq_case_insensitive(r, mir):
     """base::eq_case_insensitive decides attribute lookup, selector attribute tests and foreign-content
     checks: it must compare lengths and then, byte by byte, the ASCII-lower-cased left byte with the
-    right byte — ASCII letters fold, every other byte (digits, punctuation, non-ASCII) compares exactly."""
+    right byte — ASCII letters fold, every other byte (digits, punctuation, non-ASCII) compares exactly.
+    Shape-tolerant: the loop may be written with indices or with iterator adaptors / closures."""
     f = mir.fn("base::eq_case_insensitive")
+    bodies = [f] + [g for g in mir.fns if g.key.startswith("base::eq_case_insensitive::{closure") and "debug_assert" not in g.key]
     key = "eq_case_insensitive|shape"
     cmps = []
     bitops = []
     lens = False
-    for b in f.blocks:
-        for st in b["stmts"]:
-            if st["k"] == "assign" and st["rv"]["k"] == "bin":
-                op = st["rv"]["op"]
-                a, c = f.deep(st["rv"]["a"]), f.deep(st["rv"]["b"])
-                if op in ("Ne", "Eq"):
-                    if "len(mixed_case)" in a + c and "len(lowercased)" in a + c:
-                        lens = True
-                    else:
-                        cmps.append((a, c))
-                elif op.startswith(("BitXor", "BitAnd", "BitOr", "Shl", "Shr", "Sub", "Add")) and "Range" not in a + c and "len(" not in a + c:
-                    bitops.append((op, a[:40], c[:40]))
-    ok_cmp = [1 for a, c in cmps if ("to_ascii_lowercase(mixed_case[" in a and c.startswith("lowercased[")) or ("to_ascii_lowercase(mixed_case[" in c and a.startswith("lowercased["))]
+    for g in bodies:
+        # the debug_assert!(lowercased is lower-case) closure compares b with b.to_ascii_lowercase(): same byte on both sides
+        for b in g.blocks:
+            for st in b["stmts"]:
+                if st["k"] == "assign" and st["rv"]["k"] == "bin":
+                    op = st["rv"]["op"]
+                    a, c = g.deep(st["rv"]["a"]), g.deep(st["rv"]["b"])
+                    if op in ("Ne", "Eq"):
+                        if re.match(r"^(\[T\]|core::slice::<impl \[T\]>|slice)::len\(", a) and re.match(r"^(\[T\]|core::slice::<impl \[T\]>|slice)::len\(", c):
+                            lens = True
+                        elif a.replace("u8::to_ascii_lowercase(", "").rstrip(")") == c or c.replace("u8::to_ascii_lowercase(", "").rstrip(")") == a:
+                            continue          # `b == b.to_ascii_lowercase()`: the debug assertion on the second argument
+                        else:
+                            cmps.append((a, c))
+                    elif op.startswith(("BitXor", "BitAnd", "BitOr", "Shl", "Shr")):
+                        bitops.append((op, a[:40], c[:40]))
+        for bi, t in g.calls(r"eq_ignore_ascii_case$"):
+            cmps.append(("eq_ignore_ascii_case", "both sides folded"))
+    good = [1 for a, c in cmps if ("to_ascii_lowercase(" in a) != ("to_ascii_lowercase(" in c)]
     r.inst(key, sample={"byte_comparisons": [(a[:50], c[:50]) for a, c in cmps], "length_test": lens, "bit_arithmetic": bitops})
-    if not lens or len(ok_cmp) != 1 or len(cmps) != 1 or bitops:
-        r.violate(key, f"base::eq_case_insensitive no longer compares `mixed_case[i].to_ascii_lowercase()` with `lowercased[i]` after a length test (comparisons: {[(a[:40], c[:40]) for a, c in cmps]}, bit arithmetic: {bitops}): bytes that are not ASCII letters (`@` vs `` ` ``, `[` vs `{{`, non-ASCII lead bytes) could compare equal, so a lookup or selector would hit a different attribute", f.loc())
+    if not lens or len(good) != 1 or len(cmps) != 1 or bitops:
+        r.violate(key, f"base::eq_case_insensitive no longer compares `mixed_case[i].to_ascii_lowercase()` with `lowercased[i]` after a length test (comparisons: {[(a[:40], c[:40]) for a, c in cmps]}, bit arithmetic: {bitops}, length test: {lens}): bytes that are not ASCII letters (`@` vs `` ` ``, `[` vs `{{`, non-ASCII lead bytes) could compare equal, so a lookup or selector would hit a different attribute", f.loc())
 
 
 def clause_open_name_counts_shrinks(r, mir):
